@@ -1062,6 +1062,9 @@ pub fn wiring_table() -> Vec<(String, bool)> {
     wire!(out, "i2c::Error::kind", ehm::i2c::ErrorMock::kind.next_call(matching!()).returns(embedded_hal::i2c::ErrorKind::Bus), |u| matches!(embedded_hal::i2c::Error::kind(&u), embedded_hal::i2c::ErrorKind::Bus));
     wire!(out, "pwm::Error::kind", ehm::pwm::ErrorMock::kind.next_call(matching!()).returns(embedded_hal::pwm::ErrorKind::Other), |u| matches!(embedded_hal::pwm::Error::kind(&u), embedded_hal::pwm::ErrorKind::Other));
     wire!(out, "spi::Error::kind", ehm::spi::ErrorMock::kind.next_call(matching!()).returns(embedded_hal::spi::ErrorKind::Overrun), |u| matches!(embedded_hal::spi::Error::kind(&u), embedded_hal::spi::ErrorKind::Overrun));
+    // std::error::Error (its only stable method is provided upstream)
+    wire!(out, "Error::source", unimock::mock::std::error::ErrorMock::source.next_call(matching!()).answers(&|_| { static E: std::fmt::Error = std::fmt::Error; Some(&E as &(dyn std::error::Error + 'static)) }), |u| std::error::Error::source(&u).is_some());
+    wire!(out, "Error::source (not mentioned: upstream's body)", WriteMock::flush.next_call(matching!()).returns(Ok(())), |u| std::error::Error::source(&u).is_none() && Write::flush(&mut u).is_ok());
     // tokio / futures-io (poll entry points, called directly)
     {
         use unimock::mock::tokio_1::io as t;
@@ -1079,6 +1082,9 @@ pub fn wiring_table() -> Vec<(String, bool)> {
         wire!(out, "tokio AsyncWrite::is_write_vectored", t::AsyncWriteMock::is_write_vectored.next_call(matching!()).returns(true), |u| tokio::io::AsyncWrite::is_write_vectored(&u));
         wire!(out, "tokio AsyncSeek::start_seek", t::AsyncSeekMock::start_seek.next_call(matching!(_)).returns(Err(other())), |u| tokio::io::AsyncSeek::start_seek(Pin::new(&mut u), SeekFrom::Start(0)).is_err());
         wire!(out, "tokio AsyncSeek::poll_complete", t::AsyncSeekMock::poll_complete.next_call(matching!(_)).returns(Poll::Ready(Ok(96u64))), |u| matches!(tokio::io::AsyncSeek::poll_complete(Pin::new(&mut u), &mut cx), Poll::Ready(Ok(96))));
+        wire!(out, "tokio AsyncBufRead::poll_fill_buf", t::AsyncBufReadMock::poll_fill_buf.next_call(matching!(_)).returns(Poll::Ready(Ok::<Vec<u8>, io::Error>(vec![9u8, 8]))), |u| {
+            matches!(tokio::io::AsyncBufRead::poll_fill_buf(Pin::new(&mut u), &mut cx), Poll::Ready(Ok(b)) if b == [9u8, 8])
+        });
         wire!(out, "tokio AsyncBufRead::consume", t::AsyncBufReadMock::consume.next_call(matching!(97)).returns(()), |u| {
             tokio::io::AsyncBufRead::consume(Pin::new(&mut u), 97);
             true
@@ -1095,6 +1101,9 @@ pub fn wiring_table() -> Vec<(String, bool)> {
         wire!(out, "futures AsyncWrite::poll_close", f::AsyncWriteMock::poll_close.next_call(matching!(_)).returns(Poll::Ready(Err(other()))), |u| matches!(futures_io::AsyncWrite::poll_close(Pin::new(&mut u), &mut cx), Poll::Ready(Err(_))));
         wire!(out, "futures AsyncWrite::poll_write_vectored", f::AsyncWriteMock::poll_write_vectored.next_call(matching!(_, _)).returns(Poll::Ready(Ok(106usize))), |u| matches!(futures_io::AsyncWrite::poll_write_vectored(Pin::new(&mut u), &mut cx, &[]), Poll::Ready(Ok(106))));
         wire!(out, "futures AsyncSeek::poll_seek", f::AsyncSeekMock::poll_seek.next_call(matching!(_, _)).returns(Poll::Ready(Ok(107u64))), |u| matches!(futures_io::AsyncSeek::poll_seek(Pin::new(&mut u), &mut cx, SeekFrom::Start(0)), Poll::Ready(Ok(107))));
+        wire!(out, "futures AsyncBufRead::poll_fill_buf", f::AsyncBufReadMock::poll_fill_buf.next_call(matching!(_)).returns(Poll::Ready(Ok::<Vec<u8>, io::Error>(vec![10u8, 9]))), |u| {
+            matches!(futures_io::AsyncBufRead::poll_fill_buf(Pin::new(&mut u), &mut cx), Poll::Ready(Ok(b)) if b == [10u8, 9])
+        });
         wire!(out, "futures AsyncBufRead::consume", f::AsyncBufReadMock::consume.next_call(matching!(108)).returns(()), |u| {
             futures_io::AsyncBufRead::consume(Pin::new(&mut u), 108);
             true
